@@ -49,6 +49,11 @@ type Msg struct {
 	// HTTP/1.1 head (request line or status line, Host, the header fields, the
 	// stated Content-Length or Transfer-Encoding: chunked) and parsed with
 	// http.ReadRequest / http.ReadResponse, as the proxy obtains its messages.
+	// NoBody (responses only): the response's Body is http.NoBody itself, as in
+	// responses built in Go (a modifier's 416, a CONNECT 2xx taken over from a
+	// downstream proxy, net/http for bodiless answers) - for a response just an
+	// empty body, which the consumer reads to EOF like any other.
+	NoBody bool `json:"no_body,omitempty"`
 	// NoCtx (direct Stream path only; never part of a pair): 1 = the request
 	// (or the response's request) has no martian context, as for a message
 	// that no proxy is handling; 2 = a response whose Request field is nil.
@@ -510,6 +515,9 @@ func buildOnce(msgs []Msg, modifier bool) (bs []*built, removes []func(), clash 
 					Header: headerOf(m), ContentLength: m.CL, TransferEncoding: m.TE,
 					Body: b.body, Request: b.req,
 				}
+			}
+			if m.NoBody {
+				b.res.Body = http.NoBody // the twin is the empty script: (0, EOF) on every Read
 			}
 			if !modifier && m.NoCtx == 2 {
 				b.res.Request = nil
@@ -1183,6 +1191,13 @@ func genMsg(t *rapid.T, i int, reqs []int) Msg {
 	}
 	m.Extra = rapid.SampledFrom([]int{0, 0, 0, 1, 2}).Draw(t, "extra")
 	m.Yield = rapid.IntRange(0, 2).Draw(t, "yield")
+	if m.Resp && rapid.IntRange(0, 5).Draw(t, "no_body") == 0 {
+		m.NoBody = true
+		m.Chunks, m.ChunkErr, m.Fail, m.FailCut, m.EOFWithData = nil, nil, false, false, false
+		if m.Parsed && m.CLStated {
+			m.CL = 0
+		}
+	}
 	if m.Of < 0 && rapid.IntRange(0, 7).Draw(t, "no_ctx") == 0 {
 		m.NoCtx = 1
 		if m.Resp {
@@ -1259,6 +1274,9 @@ func logClasses(c LogCase) []string {
 		if m.NoCtx != 0 && !c.Modifier {
 			set["message-without-martian-context"] = true
 		}
+		if m.Resp && m.NoBody {
+			set["response-with-http.NoBody"] = true
+		}
 		if m.Parsed {
 			set["parsed-by-net/http"] = true
 			if len(m.Trailers) > 0 {
@@ -1326,7 +1344,7 @@ var propLogging = &kit.Prop[LogCase]{
 	ID: "C19", Name: "logging",
 	Rule: "1..8 requests/responses (URL parts, header multisets incl. large and non-canonical fields, Host/Content-Length/Transfer-Encoding fields, API flag, request/response pairs sharing an ID) logged concurrently to one marbl stream over a recording writer, directly or through marbl.Modifier, in a quarter of the cases to two streams in turn under the same IDs (each recording must hold everything); bodies are scripted readers (0..1 MiB in chunks, empty reads, transient timeout errors with or without bytes after which the consumer retries, EOF with or after the last bytes, or a final read error) consumed with generated buffer-size sequences, optional early stop and reads past the end; the recording is parsed with marbl.Reader and an independent parser and compared per (ID, type) with the message and with the reads the consumer made; a twin of the script gives the expected Read results; non-trivial = a body spanning >= 3 reads, an empty body, >= 2 concurrent messages or an early stop",
 	Run:  runLog, NonTrivial: logNonTrivial, Classes: logClasses, Journal: true,
-	Gates: map[string]float64{"nontrivial": 0.5, "concurrent>=2": 0.4, "body-spans>=3-reads": 0.4, "empty-body": 0.15, "early-stop": 0.1, "through-modifier": 0.15, "two-streams": 0.15, "announces-trailers": 0.05, "message-without-martian-context": 0.1, "body-cut-short-unexpected-eof": 0.08, "parsed-by-net/http": 0.3, "content-length-0-stated": 0.15, "non-ascii-id-on-stream-path": 0.25, "transient-read-error-retried": 0.15, "eof-with-final-bytes": 0.1, "request-response-pair": 0.1},
+	Gates: map[string]float64{"nontrivial": 0.5, "concurrent>=2": 0.4, "body-spans>=3-reads": 0.4, "empty-body": 0.15, "early-stop": 0.1, "through-modifier": 0.15, "two-streams": 0.15, "response-with-http.NoBody": 0.1, "announces-trailers": 0.05, "message-without-martian-context": 0.1, "body-cut-short-unexpected-eof": 0.08, "parsed-by-net/http": 0.3, "content-length-0-stated": 0.15, "non-ascii-id-on-stream-path": 0.25, "transient-read-error-retried": 0.15, "eof-with-final-bytes": 0.1, "request-response-pair": 0.1},
 	Gen: func(t *rapid.T) LogCase {
 		c := LogCase{Modifier: rapid.IntRange(0, 3).Draw(t, "modifier") == 0}
 		n := rapid.SampledFrom([]int{1, 1, 2, 3, 4, 6, 8}).Draw(t, "messages")
